@@ -33,6 +33,11 @@ def generate(rng, tier):
     ab = gen.grammar(rng, mode, tier, nonrecursive=(mode == "poly"))
     K = rng.choice([3, 4]) if tier == "quick" else rng.choice([4, 5, 6])
     scheds = [draw_schedule(rng, ab, gen, identity=(i == 0 and rng.random() < 0.4), p_heap=0.0) for i in range(K)]
+    # order of queries on the shared grammar object is part of the schedule:
+    # a coarse / truncated query may come first, results must not stick
+    for s in scheds:
+        s["warmup"] = rng.choice([None, None, ["treesum", {"maxiter": 3}], ["treesum", {"tol": 0.2}],
+                                  ["agenda", {"maxiter": 2}], ["naive", {"timeout": 1}], ["treesum", {}]])
     return {"property": ID, "grammar": ab, "schedules": scheds,
             "strings": [s for s in gen.all_strings(ab["V"], 3 if len(ab["V"]) < 3 else 2)]}
 
@@ -84,6 +89,11 @@ def execute(sc):
             continue
         cfg, tmap = built
         nmap = {k: dec(v) for k, v in s["pres"]["nmap"].items()}
+        wu = s.get("warmup")
+        if wu:
+            fn = {"treesum": cfg.treesum, "agenda": cfg.agenda, "naive": cfg.naive_bottom_up}[wu[0]]
+            guarded(out, f"warmup:{wu[0]}", lambda: fn(**wu[1]), sig={"mode": mode.name})
+            out.probe(f"warmup_{wu[0]}")
         for comp, fn in (("agenda", lambda: cfg.agenda()), ("naive", lambda: cfg.naive_bottom_up())):
             ok, chart = guarded(out, comp, fn, sig={"mode": mode.name})
             out.steps += 1
